@@ -2031,6 +2031,13 @@ def chain_cases(ctx):
                     prev_ = [x_init] + pts[:-1]
                     accs = [[bool(not np.array_equal(p_, q_))] for p_, q_ in zip(pts, prev_)]
                     obs_rec = clist(["(%s, %s)" % (cqvec(p), clist([cbool(b) for b in a_])) for p, a_ in zip(pts, accs)])
+                    if kind == "mala":
+                        # ... unless drift and noise cancel exactly (proposal == current point: an accepted move that does not move,
+                        # e.g. x = 0, grad = 2, s = 1/4, noise -1/4): the flag cannot be recovered, compare the points only
+                        with np.errstate(all="ignore"):
+                            if any(np.array_equal(np.asarray(q_, dtype=float) + 0.5 * scale * (T._g(q_) if T.kind in ("quad", "quart") else drv.eval_g(q_)) + nz_, np.asarray(q_, dtype=float))
+                                   for q_, nz_ in zip(prev_, noise)):
+                                obs_rec = None
             else:
                 xf, ldf, grf = drv.state()
                 obs_rec = clist(["(%s, %s)" % (cqvec(p), clist([cbool(b) for b in a_])) for p, a_ in zip(pts, accs)])
